@@ -38,6 +38,7 @@ func init() {
 		if id < 0 {
 			return // not a simulated connection (direct harness opted out)
 		}
+		s.NoteGoroutineConn(id)
 		p := &Parked{Kind: op, Conn: id}
 		if s.OnPark != nil {
 			s.OnPark(p, b)
